@@ -210,8 +210,7 @@ def read_cert(
     cert_config = get_cert()
     if is_existing and _test_file is None:
         return True, cert_config, cert_file
-    if _test_file is None:
-        make_cert(cert_config, cert_file)
+    # jmc.txt is written by build(): a compile that fails must not leave anything behind
     return False, cert_config, cert_file
 
 
